@@ -137,6 +137,7 @@ func checkC03(c *Ctx) {
 		"G-C03-keygen: GenerateKey reads BitSize/8+8 bytes with io.ReadFull from the caller's reader, d = (bytes mod (n-2)) + 1, public point = [d]G, errors returned",
 		"L-C03-init: the curve singleton is written only by the initialiser, which runs only under sync.Once",
 		"B-IDX: index/slice/make sites of the curve methods and scalar recoding are in bounds for every byte string",
+		"B-NIL-result: in the curve code (sm2/p256.go) the value RETURNED by big.Int.ModInverse / ModSqrt — nil when no inverse / root exists, e.g. for Z = 0 at the point at infinity — is not used without a nil test (the receiver, which stays unchanged in that case, may be)",
 		"K-C03-mul: every partial product of sm2P256Mul/Square lands in the limb i+j with the mixed-radix doubling for odd*odd limbs")
 	c.NotDec = append(c.NotDec, "limb-level correctness of sm2P256ReduceDegree/ReduceCarry (data-dependent borrow chain; needs a relational numeric proof)", "the window/comb control logic of ScalarMult/ScalarBaseMult beyond tables, reduction and bounds", "windowed-NAF digit positions in sm2GenrateWNaf (3 index sites exempted, numerical invariant)")
 
@@ -148,6 +149,7 @@ func checkC03(c *Ctx) {
 	c03Keygen(c)
 	c03Init(c)
 	c03MulStructure(c)
+	c03NilResults(c)
 
 	var fs []*ssa.Function
 	for _, n := range []string{"sm2P256GetScalar", "sm2GenrateWNaf", "WNafReversed", "sm2P256ScalarBaseMult", "sm2P256ScalarMult", "sm2P256SelectAffinePoint", "sm2P256SelectJacobianPoint", "sm2P256GetBit",
@@ -1159,5 +1161,48 @@ func c03IsOnCurve(c *Ctx, rule string) {
 		c.Evals += env.Ops
 	} else {
 		c.Missing(rule, "sm2.sm2P256Curve.IsOnCurve", "method", "not found")
+	}
+}
+
+// c03NilResults: (*big.Int).ModInverse and ModSqrt RETURN nil when there is no inverse / square root (and leave the
+// receiver unchanged). In the curve code that case is the point at infinity (Z = 0), which the property requires to
+// come out as (0,0): the returned pointer must not be dereferenced or passed on unless a nil test dominates the use.
+func c03NilResults(c *Ctx) {
+	rule := "B-NIL-result"
+	n := 0
+	for f := range c.P.AllFns {
+		if !inRepo(f) || f.Pkg == nil || f.Pkg.Pkg.Name() != "sm2" || f.Blocks == nil || !(strings.HasSuffix(c.P.relFile(f.Pos()), "sm2/p256.go") || strings.HasSuffix(c.P.relFile(f.Pos()), "sm2/utils.go")) {
+			continue
+		}
+		for _, ci := range allCalls(f) {
+			call, ok := ci.(*ssa.Call)
+			if !ok {
+				continue
+			}
+			id := calleeID(&call.Call)
+			if id != "(*math/big.Int).ModInverse" && id != "(*math/big.Int).ModSqrt" {
+				continue
+			}
+			n++
+			construct := fmt.Sprintf("result of %s #%d", strings.TrimPrefix(id, "(*math/big.Int)."), n)
+			bad := token.NoPos
+			for _, u := range *call.Referrers() {
+				switch x := u.(type) {
+				case *ssa.DebugRef:
+					continue
+				case *ssa.BinOp:
+					if (x.Op == token.EQL || x.Op == token.NEQ) && (isNilConst(x.X) || isNilConst(x.Y)) {
+						continue
+					}
+				}
+				if !nonNilByDominatingTest(call, u.Block()) {
+					bad = u.Pos()
+				}
+			}
+			c.Check(bad == token.NoPos, rule, fname(f), construct, "unused, or used only under a nil test", "the pointer returned by "+id+" is nil when the operand has no inverse / root (Z = 0 at the point at infinity) and is used without a nil test: a nil dereference instead of the (0,0) result", bad)
+		}
+	}
+	if n == 0 {
+		c.Undecided(rule, "sm2", "ModInverse/ModSqrt calls in the curve code", "none found", token.NoPos)
 	}
 }
